@@ -67,6 +67,11 @@ def container(vec: Dict[str, Any]):
     cont = vec["cont"]
     if cont == "column":
         return pd.DataFrame({"a": arr})
+    if cont == "sibling":
+        # what is inferred for a column does not depend on the other columns: "zz" is null in the first row
+        import numpy as np
+
+        return pd.DataFrame({"a": arr, "zz": [np.nan] + [1.0] * (n - 1)} if n else {"a": arr, "zz": np.array([], dtype="float64")})
     if cont == "series":
         return pd.Series(arr, name="s")
     if cont == "nocols":
@@ -167,7 +172,7 @@ def observe_infer(vec: Dict[str, Any]) -> Dict[str, Any]:
         cont = vec["cont"]
         if cont in ("nocols", "duplabels"):
             comp = None
-        elif cont == "column":
+        elif cont in ("column", "sibling"):
             comp = schema.columns["a"]
             out["frame_coerce"] = bool(schema.coerce)
         elif cont == "series":
@@ -177,7 +182,7 @@ def observe_infer(vec: Dict[str, Any]) -> Dict[str, Any]:
         else:
             comp = schema.index.indexes[0]
         out["inferred"] = p_comp(comp) if comp is not None else None
-        fld = (None if comp is None else obj["a"] if cont == "column" else obj if cont == "series" else obj.index if cont == "index"
+        fld = (None if comp is None else obj["a"] if cont in ("column", "sibling") else obj if cont == "series" else obj.index if cont == "index"
                else obj.index.get_level_values(0))
         out["built_pd"] = str(fld.dtype) if fld is not None else vec["pd"]
         try:
